@@ -19,7 +19,7 @@ func (P) Rule() string {
 }
 
 func (P) Gen(r *core.Rand, tier string, emit func([]string)) {
-	n := 120
+	n := 400
 	if tier == "thorough" {
 		n = 2500
 	}
